@@ -917,7 +917,7 @@ var numFamilies = []numFamily{
 func TestC16_numeric_stationary(t *testing.T) {
 	rapid.Check(t, func(t *rapid.T) {
 		f := numFamilies[rapid.IntRange(0, len(numFamilies)-1).Draw(t, "family")]
-		method := rapid.SampledFrom([]string{"newton", "newton", "bfgs"}).Draw(t, "method") // "rprop" has no iteration bound and did not return within 20 s in 12 of 12 trials: termination is C20's subject
+		method := rapid.SampledFrom([]string{"newton", "newton", "bfgs", "rprop"}).Draw(t, "method")
 		n := rapid.IntRange(3, 30).Draw(t, "n")
 		d := dataSet{x: make([]float64, n), w: make([]float64, n)}
 		for i := range d.x {
@@ -1511,4 +1511,15 @@ func TestKF_scalariid_weights(t *testing.T) {
 	var err error
 	p, _ := guarded(func() { err = est.EstimateOnData(xs, NewDenseFloat64Vector([]float64{-1, 0}), threadpool.Nil()) })
 	obs.KFStatus("C16/scalariid-passes-per-vector-weights-to-the-pooled-entries", p != "", fmt.Sprintf("%s err %v", p, err))
+}
+
+func TestKF_numeric_rprop_default_eta(t *testing.T) {
+	pdf, _ := scalarDistribution.NewGammaDistribution(NewFloat64(2), NewFloat64(1))
+	est, _ := scalarEstimator.NewNumericEstimator(pdf)
+	est.Method = "rprop"
+	old := watchdog
+	watchdog = 5 * time.Second
+	defer func() { watchdog = old }()
+	_, to := guarded(func() { est.EstimateOnData(NewDenseFloat64Vector([]float64{1, 1.5, 3.5, 2, 0.7}), nil, threadpool.Nil()) })
+	obs.KFStatus("C16/numeric-rprop-default-eta-reversed", to, fmt.Sprintf("returned within 5 s: %v", !to))
 }
